@@ -179,7 +179,30 @@ def grep_gate():
     return hits
 
 
-def proof_stage(prop):
+def coqchk_stage(prop):
+    """independent re-check of Props/<prop>.vo and everything it depends on; -o lists the axioms"""
+    p = subprocess.run(["timeout", "1500", "coqchk", "-silent", "-o", "-Q", ".", "Mokaverif", f"Mokaverif.Props.{prop}"],
+                       cwd=COQ, stdout=subprocess.PIPE, stderr=subprocess.STDOUT)
+    txt = p.stdout.decode(errors="replace")
+    info = {"rc": p.returncode, "summary": txt[txt.find("CONTEXT SUMMARY"):][:1500] if "CONTEXT SUMMARY" in txt else txt[-800:]}
+    problems = []
+    if p.returncode != 0:
+        problems.append("coqchk failed: " + txt[-600:])
+    else:
+        for head in ("Axioms", "Constants/Inductives relying on type-in-type", "Constants/Inductives relying on unsafe (co)fixpoints",
+                     "Inductives whose positivity is assumed"):
+            m = re.search(r"\* " + re.escape(head) + r":(.*?)(?=\n\* |\Z)", txt, flags=re.S)
+            body = m.group(1).strip() if m else "?"
+            info[head] = body
+            if body != "<none>":
+                names = [x.strip() for x in body.split("\n") if x.strip()]
+                bad = [x for x in names if x.split()[0] not in ALLOWED_AXIOMS]
+                if bad:
+                    problems.append(f"coqchk: {head}: {bad[:5]}")
+    return info, problems
+
+
+def proof_stage(prop, thorough=False):
     """Recompile Props/<prop>.v and read Print Assumptions.  Returns dict."""
     rc, out = ensure_built()
     res = {"build_rc": rc, "theorems": [], "obligations": 0, "discharged": 0, "problems": [],
@@ -231,6 +254,10 @@ def proof_stage(prop):
     hits = grep_gate()
     if hits:
         res["problems"].append("grep gate: " + "; ".join(hits[:10]))
+    if thorough and not res["problems"]:
+        info, probs = coqchk_stage(prop)
+        res["coqchk"] = info
+        res["problems"].extend(probs)
     return res
 
 
@@ -327,6 +354,7 @@ def write_evidence(ctx, proof, cov, assumptions, violations):
         ] + list(cov.pop("trusted_base_extra", [])),
         "theorems": proof["theorems"],
         "proof_problems": proof["problems"],
+        "coqchk": proof.get("coqchk", "not run in this tier (thorough tier runs coqchk -o on Props/%s.vo and its dependencies)" % ctx.prop),
     }
     coverage.update(cov)
     if coverage["discharged"] < 1:
